@@ -206,6 +206,44 @@ def degenerate_scenes(rng, n):
         out.append(("needle-vs-box", nd, unit_box, False))
         out.append(("needle-vs-needle", nd, scenes.translate(needles[rng.randrange(len(needles))], [0.5, 0.5, 0]), False))
         out.append(("needle-identical", nd, nd, True))
+    # face-on / coaxial placements under a GENERAL rotation: the other shape sits on the axis of a flat or axial shape, so
+    # the search direction reaches its support function parallel to the axis up to rounding (difference-of-squares and
+    # "radial part" reformulations produce sqrt of a negative number or a normalised noise vector there)
+    for _k in range(14):
+        R = scenes.rotation(rng, False)
+        A = np.eye(4)
+        A[:3, :3] = R
+        A[:3, 3] = scenes.vec(rng, False, 1.0)
+        ax, c = R[:, 2].copy(), A[:3, 3].copy()
+        typ = ("Disk", "Ellipse", "Cylinder", "Capsule", "Cone", "Box", "Ellipsoid")[_k % 7]
+        r, h = rng.choice([0.5, 1.0, 2.0]), rng.choice([0.5, 1.0, 3.0])
+        if typ == "Disk":
+            s1, half = ("Disk", c, r, np.ascontiguousarray(ax)), 0.0
+        elif typ == "Ellipse":
+            s1, half = ("Ellipse", c, np.ascontiguousarray(R[:, :2].T), np.array([r, 0.5 * r])), 0.0
+        elif typ == "Cylinder":
+            s1, half = ("Cylinder", A.copy(), r, h), 0.5 * h
+        elif typ == "Capsule":
+            s1, half = ("Capsule", A.copy(), r, h), 0.5 * h + r
+        elif typ == "Cone":
+            s1, half = ("Cone", A.copy(), r, h), h
+        elif typ == "Box":
+            s1, half = ("Box", A.copy(), np.array([r, 0.7 * r, h])), 0.5 * h
+        else:
+            s1, half = ("Ellipsoid", A.copy(), np.array([r, 0.6 * r, h])), h
+        rs = rng.choice([0.3, 1.0])
+        for gap in (0.5, 1e-3, 0.0, -0.2):
+            centre_other = c + ax * (half + rs + gap)
+            out.append(("face-on-tilted", s1, ("Sphere", centre_other, rs), False))
+            out.append(("face-on-tilted", ("Sphere", centre_other, rs), s1, False))
+    # parallel axial shapes on a lattice (exact ties of the sub-simplex selection)
+    for _k in range(24):
+        def lat_pose():
+            P = np.eye(4)
+            P[:3, 3] = [rng.choice([-1.0, -0.5, 0.0, 0.5, 1.0]) for _ in range(3)]
+            return P
+        mk = lambda: (rng.choice(["Capsule", "Cylinder"]), lat_pose(), rng.choice([0.5, 1.0]), rng.choice([0.5, 1.0, 2.0]))  # noqa
+        out.append(("parallel-axial-lattice", mk(), mk(), False))
     # the same special scenes away from the origin (a common translation keeps every relative placement exact when
     # the offset is dyadic, and adds rounding in the support points when it is not)
     moved = []
